@@ -264,3 +264,23 @@ Theorem C13_capstone_pipe : forall p o kw full entry tgt e,
   Run_C13.spec_ok (Run_C13.CPipe p o kw full entry tgt e) (Run_C13.run (Run_C13.CPipe p o kw full entry tgt e)) = true.
 Proof. intros p o kw full entry tgt e H. exact (C13PipeCap.pipe_capstone p o kw full tgt e H). Qed.
 Print Assumptions C13_capstone_pipe.
+
+(* CAPSTONE, map cases, WITHOUT the store conjunct: Corr/C13Map.map_spec_ok = map_judge true and
+   map_head_ok = map_judge false are the same boolean statement except that the latter omits the last conjunct
+   ("results completed before the failure remain loadable", which compares the stored arrays with the denotation of
+   C01).  map_head_ok -- the exception unchanged, the note = failing function + kwargs of that invocation, no
+   invocation of a later generation (generation = dependency depth), the sequential path stops at the failure, the
+   ErrorSnapshot names that invocation and reproduce() raises the same exception -- holds of the model's own
+   observation for EVERY map case (any generations / inputs / storage discipline / path / in-process flag / failing
+   invocation / exception) whose model run does not end in an exception of the library itself, provided the function
+   names contain no '('.  NOT proved: the store conjunct at this boolean level (its Prop-level counterpart is
+   C13_prefix_results_kept; the engine evaluates the full spec_ok on the model for every explored case). *)
+From Verif Require Corr.C13Map Proofs.C13MapCap.
+
+Theorem C13_capstone_map_head : forall gens inputs internal dump_sub par inproc tgt e,
+  C13MapCap.names_ok_m gens = true ->
+  C13MapCap.model_no_lib gens inputs internal dump_sub par tgt e = true ->
+  C13Map.map_head_ok gens inputs internal dump_sub par inproc tgt e
+    (C13Map.map_run gens inputs internal dump_sub par inproc tgt e) = true.
+Proof. exact C13MapCap.map_capstone_head. Qed.
+Print Assumptions C13_capstone_map_head.
